@@ -4,6 +4,7 @@ package main
 // /repo/zz_contracts_verif.go (build tag verif), keyed by function.
 
 import (
+	"hash/fnv"
 	"fmt"
 	"go/ast"
 	"go/parser"
@@ -24,6 +25,7 @@ type Clause struct {
 	QVars    []QVar
 	Free     bool // "free" clause: assumed, not checked (listed as assumption)
 	Internal bool
+	Optin    bool // exported to callers only on request (use callee.clause)
 }
 
 type QVar struct {
@@ -89,6 +91,8 @@ type Contract struct {
 	LoopTextOrder []string
 	Writes        []string // slice parameters whose elements the function writes
 	SafetyProps   []string
+	CaseOnly      ast.Expr // filter over split variables: only these cases exist
+	InstMods      []*InstMod
 	AssertBefore  []*AssertAnchor
 	Uses          []string // quantified callee clauses to assume at call sites: "callee.clause" or "callee.*"
 }
@@ -108,6 +112,14 @@ type PredDecl struct {
 type GhostAnchor struct {
 	Anchor string
 	Eff    *Effect
+}
+
+// InstMod: "modifies BASE->field": the function may write that field of the
+// object BASE (evaluated on entry) and of no other object.
+type InstMod struct {
+	Base  ast.Expr
+	Field string
+	Src   string
 }
 
 // AssertAnchor: an assertion checked immediately before every statement whose
@@ -224,6 +236,11 @@ func parseClause(text string, line int) (*Clause, error) {
 	if strings.HasPrefix(text, "free ") {
 		c.Free = true
 		text = strings.TrimSpace(text[5:])
+	}
+	if strings.HasPrefix(text, "optin ") {
+		// exported to a caller only on request ("use callee.clause")
+		c.Optin = true
+		text = strings.TrimSpace(text[6:])
 	}
 	if strings.HasPrefix(text, "internal ") {
 		// exit-state assertion over the function's own locals: proved for the
@@ -545,7 +562,8 @@ func (cf *ContractFile) parseOne(path string) error {
 					return fail(err)
 				}
 				if cl.Name == "" {
-					cl.Name = fmt.Sprintf("pre.%d", len(c.Requires)+1)
+					// stable under insertion of other clauses: named after the text
+					cl.Name = "pre." + shortHash(cl.Src)
 				}
 				if cl.Free {
 					cf.Assumptions = append(cf.Assumptions, fmt.Sprintf("free requires on %s: %s", c.Func, cl.Src))
@@ -557,7 +575,7 @@ func (cf *ContractFile) parseOne(path string) error {
 					return fail(err)
 				}
 				if cl.Name == "" {
-					cl.Name = fmt.Sprintf("post.%d", len(c.Ensures)+1)
+					cl.Name = "post." + shortHash(cl.Src)
 				}
 				if cl.Free {
 					cf.Assumptions = append(cf.Assumptions, fmt.Sprintf("free ensures on %s: %s", c.Func, cl.Src))
@@ -646,7 +664,22 @@ func (cf *ContractFile) parseOne(path string) error {
 				}
 				c.GhostAfter = append(c.GhostAfter, &GhostAnchor{Anchor: anchor, Eff: &Effect{LHS: le, RHS: re, Src: body, Cond: cond}})
 			case "ghostentry":
-				l, r, ok := strings.Cut(rest, " = ")
+				// ghostentry [if COND :] LHS = RHS
+				gbody := rest
+				var gcond ast.Expr
+				if strings.HasPrefix(gbody, "if ") {
+					i := strings.Index(gbody, " : ")
+					if i < 0 {
+						return fail(fmt.Errorf("ghostentry if without ' : '"))
+					}
+					ce, err := parser.ParseExpr(rewriteSpecSyntax(gbody[3:i]))
+					if err != nil {
+						return fail(err)
+					}
+					gcond = ce
+					gbody = gbody[i+3:]
+				}
+				l, r, ok := strings.Cut(gbody, " = ")
 				if !ok {
 					return fail(fmt.Errorf("ghostentry needs LHS = RHS"))
 				}
@@ -658,7 +691,7 @@ func (cf *ContractFile) parseOne(path string) error {
 				if err != nil {
 					return fail(err)
 				}
-				c.GhostEntry = append(c.GhostEntry, &Effect{LHS: le, RHS: re, Src: rest})
+				c.GhostEntry = append(c.GhostEntry, &Effect{LHS: le, RHS: re, Src: rest, Cond: gcond})
 			case "callers":
 				// callers [PROPS] f1 f2 ... : only these functions may call this one
 				r := rest
@@ -690,8 +723,28 @@ func (cf *ContractFile) parseOne(path string) error {
 				cf.Assumptions = append(cf.Assumptions, fmt.Sprintf("trusted contract: %s (%s)", c.Func, rest))
 			case "note":
 				c.Notes = append(c.Notes, rest)
+			case "caseonly":
+				ce, err := parser.ParseExpr(rest)
+				if err != nil {
+					return fail(err)
+				}
+				c.CaseOnly = ce
 			case "modifies":
-				c.Modifies = append(c.Modifies, strings.Fields(rest)...)
+				for _, m := range strings.Fields(rest) {
+					if i := strings.Index(m, "->"); i > 0 {
+						// instance-level frame: BASE->field (only that object's field)
+						be, err := parser.ParseExpr(m[:i])
+						if err != nil {
+							return fail(err)
+						}
+						c.InstMods = append(c.InstMods, &InstMod{Base: be, Field: m[i+2:], Src: m})
+						if c.Modifies == nil {
+							c.Modifies = []string{}
+						}
+						continue
+					}
+					c.Modifies = append(c.Modifies, m)
+				}
 			case "effect":
 				// effect [if COND :] LHS = RHS
 				var cond ast.Expr
@@ -889,13 +942,13 @@ func (cl *Clause) inProp(c *Contract, p string) bool {
 
 // quantified reports whether the clause contains a quantifier.
 func (cl *Clause) quantified() bool {
-	if len(cl.QVars) > 0 {
+	if len(cl.QVars) > 0 || cl.Optin {
 		return true
 	}
 	q := false
 	ast.Inspect(cl.Expr, func(n ast.Node) bool {
 		if c, ok := n.(*ast.CallExpr); ok {
-			if id, ok := c.Fun.(*ast.Ident); ok && (id.Name == "all" || id.Name == "exists" || id.Name == "allref") {
+			if id, ok := c.Fun.(*ast.Ident); ok && (id.Name == "all" || id.Name == "allsel" || id.Name == "allabs" || id.Name == "exists" || id.Name == "allref" || id.Name == "allstr") {
 				q = true
 			}
 		}
@@ -919,7 +972,7 @@ func (c *Contract) modifiesGhost(name string) bool {
 	if c.Pure {
 		return false
 	}
-	if len(c.Modifies) == 0 && len(c.Effects) == 0 {
+	if len(c.Modifies) == 0 && len(c.Effects) == 0 && len(c.InstMods) == 0 {
 		return true
 	}
 	for _, m := range c.Modifies {
@@ -928,4 +981,10 @@ func (c *Contract) modifiesGhost(name string) bool {
 		}
 	}
 	return false
+}
+
+func shortHash(text string) string {
+	h := fnv.New32a()
+	h.Write([]byte(strings.Join(strings.Fields(text), " ")))
+	return fmt.Sprintf("%04x", h.Sum32()&0xffff)
 }
